@@ -567,6 +567,59 @@ def closed_world(repo_index):
     return recs
 
 
+def field_is_frozenset(repo_index, cls, attr):
+    """Representation invariant used by the C08 model: `self.<attr>` of a <cls> object is a FROZENSET (its hash
+    is a function of the value, it cannot be changed through an alias).  Every store to an attribute of that
+    name anywhere in the package must assign `frozenset(...)` or `X if isinstance(X, frozenset) else <good>`.
+    A store that keeps another container type as it is (e.g. isinstance(X, (set, frozenset))) is refuted; an
+    unrecognised shape is undecided."""
+    name = f"{cls}:field-invariant[{attr} is a frozenset]"
+
+    def classify(e):
+        if isinstance(e, ast.Call) and isinstance(e.func, ast.Name) and e.func.id == "frozenset":
+            return "good", ""
+        if isinstance(e, ast.IfExp):
+            t = e.test
+            if (isinstance(t, ast.Call) and isinstance(t.func, ast.Name) and t.func.id == "isinstance" and len(t.args) == 2
+                    and ast.unparse(t.args[0]) == ast.unparse(e.body)):
+                kinds = [ast.unparse(x) for x in (t.args[1].elts if isinstance(t.args[1], ast.Tuple) else [t.args[1]])]
+                other = [k for k in kinds if k != "frozenset"]
+                if other:
+                    return "bad", f"`{ast.unparse(e)}` keeps a {'/'.join(other)} as it is (unhashable or mutable through the caller's alias)"
+                return classify(e.orelse)
+            return "unknown", ast.unparse(e)
+        return "unknown", ast.unparse(e)
+
+    stores = []
+    for q, f in repo_index.funcs.items():
+        for node in ast.walk(f.node):
+            tgts = []
+            if isinstance(node, ast.Assign):
+                tgts = [(t, node.value) for t in node.targets]
+            elif isinstance(node, ast.AnnAssign) and node.value is not None:
+                tgts = [(node.target, node.value)]
+            elif isinstance(node, ast.AugAssign):
+                tgts = [(node.target, None)]
+            for t, v in tgts:
+                if isinstance(t, ast.Attribute) and t.attr == attr:
+                    stores.append((q, v))
+    if not stores:
+        return [_rec(name, "field-invariant", cls, "undecided", f"no store to .{attr} found (representation changed?)")]
+    bad = []
+    unknown = []
+    for q, v in stores:
+        kind, note = ("unknown", "augmented assignment") if v is None else classify(v)
+        if kind == "bad":
+            bad.append(f"{q}: {note}")
+        elif kind == "unknown":
+            unknown.append(f"{q}: {note}")
+    if bad:
+        return [_rec(name, "field-invariant", cls, "refuted", "; ".join(bad))]
+    if unknown:
+        return [_rec(name, "field-invariant", cls, "undecided", "unrecognised store shape: " + "; ".join(unknown))]
+    return [_rec(name, "field-invariant", cls, "discharged", f"{len(stores)} store(s), each assigns frozenset(...) or keeps an existing frozenset")]
+
+
 def m_language(repo_index):
     """C15: the literal transition table of make_dfa_for_m against the DEFINITION of the
     pin-sequence language M (words over U, D, L, R in which vertical and horizontal letters
@@ -645,6 +698,8 @@ def run_for(prop):
         recs += frame_readonly(idx, "Perm._contains")
         recs += frame_readonly(idx, "Perm.contains")
         recs += frame_readonly(idx, "Perm.avoids")
+    if prop == "C08":
+        recs += field_is_frozenset(idx, "MeshPatt", "shading")
     if prop == "C09":
         recs += lru_purity(idx, "Perm._to_standard")
     if prop == "C13":
